@@ -7,6 +7,7 @@
 
 #include <yaclib/async/connect.hpp>
 #include <yaclib/async/contract.hpp>
+#include <yaclib/async/make.hpp>
 #include <yaclib/async/share.hpp>
 #include <yaclib/async/shared_contract.hpp>
 #include <yaclib/async/split.hpp>
@@ -97,13 +98,16 @@ enum Op {
   oCopyGetMove,
   oReadyTouch,
   oCopyDestroy,
+  oUnwrapStep,
+  oUnwrapStepExec,
   kOps,
   oOwnGetMove = kOps  // terminal: Get()&& on the observer's own copy (moves out iff it is the last reference)
 };
 const char* const kOpName[] = {"SubscribeInline", "Subscribe(e)",       "ThenInline",        "Then(e)",
                                "Share+Get",       "Share(e)+Then()",    "Split(Share)",      "Connect(->Promise)",
                                "Connect(->SharedPromise)", "Wait",     "Get const&",        "copy+Get&&",
-                               "Ready-then-Touch", "copy+destroy", "own-copy Get&&"};
+                               "Ready-then-Touch", "copy+destroy", "step returning the SharedFuture",
+                               "step on e returning the SharedFuture", "own-copy Get&&"};
 
 struct Step {
   int op;
@@ -381,6 +385,24 @@ void SharedCase(Ctx& ctx, bool with_ready_touch) {
               SF c = sf;
               SF d = c;
               o.calls.store(-1, kRlx);
+            } break;
+            case oUnwrapStep: {
+              // a continuation that returns a copy of the SharedFuture: the step is flattened with the shared result,
+              // which it may only copy because other observers still hold the state
+              o.what = "Get on the flattened step";
+              auto f = yaclib::MakeFuture<void, MyError>().ThenInline([c = sf] {
+                return c;
+              });
+              auto r = std::move(f).Get();
+              Digest(o, r, w);
+            } break;
+            case oUnwrapStepExec: {
+              o.what = "Get on the flattened step";
+              auto f = yaclib::MakeFuture<void, MyError>().Then(tag, [c = sf] {
+                return c;
+              });
+              auto r = std::move(f).Get();
+              Digest(o, r, w);
             } break;
             default:
               break;
